@@ -309,7 +309,10 @@ func (c *Cluster) crashImage(n *Node) string {
 
 // tasks ---------------------------------------------------------------------
 
-func (c *Cluster) nextOp() int64 { return atomic.AddInt64(&c.opID, 1) }
+// operation ids are unique per process (several clusters share one event log)
+var globalOpID int64
+
+func (c *Cluster) nextOp() int64 { return atomic.AddInt64(&globalOpID, 1) }
 
 // submitTask sends t to n's task channel; false if the node is gone.
 func (n *Node) submitTask(t raft.Task) bool {
